@@ -149,7 +149,9 @@ def run(ctx):
             fixtures.append(json.load(f)['token'])
     cases = []
     n_wit = 0
-    for g in range(450 if q else 4000):
+    n_gen = 450 if q else 4000
+    n_neg = 70 if q else 600
+    for g in range(n_gen + n_neg):
         nn = rng.randint(1, 6)
         base = rng.sample(['compute:get', 'compute:list', 'admin_required', 'owner', 'svc:a:b', 'Zed:x', 'a:', ':b', 'volume:create', 'plain'], nn)
         if rng.random() < 0.6:
@@ -157,6 +159,20 @@ def run(ctx):
         rules = [(n, body(rng, base[i + 1:], rng.choice([1, 2, 3, 5]))) for i, n in enumerate(base)]
         if 'default' in base:
             rules[-1] = ('default', rng.choice([leaf(rng), ev.T, ev.F, ev.role('admin')]))
+        forced_req = None
+        if g >= n_gen:
+            # a requested rule that reaches an alias only through a negation (directly, in a group, through
+            # another alias): the alias decides, not the default rule
+            al = rng.choice([leaf(rng), ev.T, ev.F, ev.role('admin'), ev.role('member')])
+            shape = rng.randrange(4)
+            top = [ev.Not(ev.rule('svc:al')), ev.Not(ev.Or(ev.rule('svc:al'), ev.F)), ev.And(ev.T, ev.Not(ev.rule('al2'))),
+                   ev.Or(ev.Not(ev.rule('al2')), ev.F)][shape]
+            rules = [('svc:top', top), ('al2', ev.rule('svc:al')), ('svc:al', al)]
+            base = ['svc:top', 'al2', 'svc:al']
+            if rng.random() < 0.6:
+                rules.append(('default', rng.choice([ev.T, ev.F, ev.role('admin')])))
+                base.append('default')
+            forced_req = 'svc:top'
         texts = {n: ev.rule_text(t, rng) for n, t in rules}
         policy_text = rng.choice([json.dumps(texts, indent=1), json.dumps(texts, indent='\t'), json.dumps(texts, separators=(',\t', ':\t')),
                                   yaml.safe_dump(texts, default_flow_style=False)])
@@ -175,6 +191,8 @@ def run(ctx):
             requested = rng.choice(base)
         elif r < 0.4 and 'default' in base:
             requested = 'not:defined'
+        if forced_req:
+            requested = forced_req
         out, crashed, exc = run_tool(policy_text, token, is_admin, target, requested, rng)
         strs = list(texts.values())
         ev.all_text(token, strs)
